@@ -34,7 +34,7 @@ class Calls:
                      'is_none', 'hashable', 'callraises', 'call', 'fresh_obj', 'is_int_key', 'int_key', 'ite', 'attr',
                      'has_attr', 'catches', 'exc_is', 'iff', 'dynattr', 'truthy', 'key_at', 'idx_of', 'old', 'is_fresh',
                      'seq_of', 'card', 'same_elements', 'typeof', 'callv', 'callvraises', 'isinst_dyn', 'lt', 'unhashable_any',
-                     'mhas', 'mget', 'shas', 'without_key', 're_compile_raises', 're_compile', 'as_map', 'as_seq', 'as_set', 'sat', 'slen', 'mlen', 'methraises', 'methcall', 'gen_of', 'nth_where', 'count_where', 'ghost', 'zlen', 'isfinite', 'ret_make_converter', 'ret_into_data', 'ret', 'retc', 'clsref', 'attr_named', 'ext', 'did_call', 'exited', 'cm_enter', 'clsref_dotted', 'List', 'ghost_int', 'id_of', 'fnref', 'called', 'hash_of', 'forall_bools4', 'methv', 'getattr', 'kept_seq', 'get_origin', 'get_args', 'callraises_as', 'isabstract', 'issub', 'closure_of', 'closure_free'}
+                     'mhas', 'mget', 'shas', 'without_key', 're_compile_raises', 're_compile', 'as_map', 'as_seq', 'as_set', 'sat', 'slen', 'mlen', 'methraises', 'methcall', 'gen_of', 'nth_where', 'count_where', 'ghost', 'zlen', 'isfinite', 'ret_make_converter', 'ret_into_data', 'ret', 'retc', 'clsref', 'attr_named', 'ext', 'did_call', 'exited', 'cm_enter', 'clsref_dotted', 'List', 'ghost_int', 'id_of', 'fnref', 'called', 'hash_of', 'forall_bools4', 'methv', 'getattr', 'kept_seq', 'get_origin', 'get_args', 'callraises_as', 'isabstract', 'issub', 'closure_of', 'closure_free', 'deepcopy_of'}
 
     # ------------------------------------------------------------------------------------
     def ev_Call(self, node, st):
@@ -143,6 +143,9 @@ class Calls:
         th = self.th
         if isinstance(f, VBuiltin) and f.name == 'spec.callv':
             pass
+        if isinstance(f, VBuiltin) and f.name in ('builder.update', 'valmeth.update') and seq is None and len(stars) == 1 and f.recv is not None:
+            # d.update(**m, k=v) is d.update(m, k=v) (keyword names are strings)
+            return self.call_builtin(f, [stars[0]], named, st, node)
         if isinstance(f, VBuiltin) and f.name == 'dataclasses.replace' and isinstance(seq, VTuple) and len(seq.items) == 1 and len(stars) == 1 \
                 and not named:
             # dataclasses.replace(obj, **changes): functional record update (assumed stdlib contract)
